@@ -52,6 +52,7 @@ Lemma ob_out s o : s_out (set_out s o) = o. Proof. reflexivity. Qed.
 Lemma ob_find_local_helper s o n : find_local_helper (set_out s o) n = find_local_helper s n. Proof. reflexivity. Qed.
 Lemma ob_helper_exists reg s o n : helper_exists reg (set_out s o) n = helper_exists reg s n. Proof. reflexivity. Qed.
 Lemma ob_get_partial s o n : get_partial (set_out s o) n = get_partial s n. Proof. reflexivity. Qed.
+Lemma ob_current_pb s o : current_pb (set_out s o) = current_pb s. Proof. reflexivity. Qed.
 Lemma ob_state_text s o : state_text (set_out s o) = state_text s. Proof. reflexivity. Qed.
 
 #[export] Hint Rewrite po_set_blocks po_set_modified po_set_partials po_set_pb_stack po_set_pb_depth
@@ -60,7 +61,7 @@ Lemma ob_state_text s o : state_text (set_out s o) = state_text s. Proof. reflex
   po_log_entry po_pop_block po_push_block po_map_front_block po_each_iter_setup po_set_out
   ob_blocks ob_modified ob_partials ob_pb_stack ob_pb_depth ob_local_helpers ob_current ob_root
   ob_disable_escape ob_trailing_newline ob_content_produced ob_indent_before_write ob_indent ob_dev
-  ob_log ob_esc_trace ob_out ob_find_local_helper ob_helper_exists ob_get_partial ob_state_text
+  ob_log ob_esc_trace ob_out ob_find_local_helper ob_helper_exists ob_get_partial ob_current_pb ob_state_text
   : pushout.
 
 Lemma so_set_blocks s x : s_out (set_blocks s x) = s_out s. Proof. reflexivity. Qed.
@@ -472,6 +473,8 @@ Ltac sim_step IH :=
   autorewrite with pushout;
   repeat (lazymatch goal with
           | |- context [if ?c then set_out _ _ else _] => destruct c
+          | |- context [match ?c with Some _ => _ | None => set_out _ _ end] =>
+              destruct c as [[? ?]|]
           end; autorewrite with pushout);
   lazymatch goal with
   | |- rsim ?k ?s ?L ?R =>
